@@ -22,6 +22,10 @@ CHECKS['C09'] = dict(cat='exploration', ref='4 C09',
    text='Runtime differential monitor over generated programs using call/N, once/1, findall/3, = and \\= with every goal shape (inline, atom, compound with missing arguments, goal in a run-time bound variable, nested meta-calls, failing and unknown goals), in clause bodies and invoked directly through the API; all clause variables are observed at every answer so leaked bindings are seen; exceptions escaping the query are violations.',
    note='Trusted: reference interpreters A and B (must agree). Non-callable goals are type errors and discarded; findall instances with unbound variables are compared modulo variable identity.',
    tech='runtime differential monitoring against dual reference interpreters, per-builtin usage floors')
+CHECKS['C02'] = dict(cat='exploration', ref='4 C02',
+   text='Runtime monitor on the real unify(): yield count, equality of both sides at the yield, joint canonical snapshot against an independent Robinson unifier (MGU uniqueness up to renaming makes this most-generality and aliasing), symmetry on a fresh copy, pre-state restored after exhaustion/close, all under stacks of earlier unifications held open; plus an online monitor on every engine-internal unify yield while generated programs run.',
+   note='Trusted: the reference unifier with occurs check and the STO filter (cases needing a cyclic term under any order are unspecified and discarded). Python constants limited to int and str.',
+   tech='runtime assertion monitor on unify with reference-model comparison; online hook on internal unify')
 PENDING = {}
 
 def main():
